@@ -1,5 +1,6 @@
 import Driver.Util
 import Model.Escape
+import Model.TextInput
 /-! JSON ops for C10: the model of the escaper / UTF-8 writer / subline heading, and the reader-side
 oracle `intact` evaluated on the *implementation's* bytes. Batched (one request carries many items). -/
 namespace Driver
@@ -147,12 +148,50 @@ def opSublineCheck (j : Json) : R Json := do
   return Json.mkObj [("n", Json.num (JsonNumber.fromNat i)), ("disagree", jNats disagree.toList),
     ("fail", jNats fail.toList), ("details", Json.arr details)]
 
+/-- the `text=` argument of a constructor: `{"one": [code points]}` or `{"many": [[code points] …]}` -/
+def asTextArg (j : Json) : R (Model.TextInput.TextArg Nat) :=
+  match optFld j "one" with
+  | some s => do return .one (← asList asNat s)
+  | none => do return .many (← listF (asList asNat) j "many")
+
+/-- op `text_input`: the constructor step (`Model.TextInput`).  `foot` = true: `RTFFootnote` / `RTFSource` (`got` = the
+code points of `.text` after construction, null = it is not a `str`); false: title / subline / page header / page
+footer / column header (`got` = the lines of `.text`).  Answers the indices where the model's text differs. -/
+def opTextInput (j : Json) : R Json := do
+  let foot ← boolF j "foot"
+  let args ← listF asTextArg j "args"
+  let mut disagree : Array Nat := #[]
+  let mut details : Array Json := #[]
+  let mut i := 0
+  if foot then
+    let gots ← listF (asOpt (asList asNat)) j "got"
+    if gots.length != args.length then throw "text_input: length mismatch"
+    for (a, g) in args.zip gots do
+      let m := Model.TextInput.footTextN a
+      if g != some m then
+        disagree := disagree.push i
+        if details.size < 8 then
+          details := details.push (Json.mkObj [("i", Json.num (JsonNumber.fromNat i)), ("model", jNats m)])
+      i := i + 1
+  else
+    let gots ← listF (asOpt (asList (asList asNat))) j "got"
+    if gots.length != args.length then throw "text_input: length mismatch"
+    for (a, g) in args.zip gots do
+      let m := a.lines
+      if g != some m then
+        disagree := disagree.push i
+        if details.size < 8 then
+          details := details.push (Json.mkObj [("i", Json.num (JsonNumber.fromNat i)), ("model", jList jNats m)])
+      i := i + 1
+  return Json.mkObj [("n", Json.num (JsonNumber.fromNat i)), ("disagree", jNats disagree.toList),
+    ("details", Json.arr details)]
+
 end EscapeImpl
 
 namespace Escape
 def ops : List (String × (Json → R Json)) :=
   [("esc_check", EscapeImpl.opEscCheck), ("esc_model", EscapeImpl.opEscModel), ("rtf_decode", EscapeImpl.opDecode),
-   ("read_predict", EscapeImpl.opReadPredict), ("subline_check", EscapeImpl.opSublineCheck)]
+   ("read_predict", EscapeImpl.opReadPredict), ("subline_check", EscapeImpl.opSublineCheck), ("text_input", EscapeImpl.opTextInput)]
 end Escape
 
 end Driver
